@@ -11,7 +11,6 @@ import (
 
 // reasons for properties that are not claimed
 var naReasons = map[string]string{
-	"C01": "correctness of a numeric tally for all (quorum, threshold, vote multiset): no clause of it is visible in the shape of the code; deciding it needs evaluation of the arithmetic (a different technique family)",
 }
 
 func writeManifest(verif string) {
@@ -33,7 +32,7 @@ func writeManifest(verif string) {
 	}
 	sort.Strings(all)
 	var checks []map[string]any
-	var na []map[string]string
+	na := []map[string]string{}
 	var served []string
 	for _, id := range all {
 		pr := registry[id]
